@@ -89,6 +89,7 @@ Definition valid_basic (c : ccontent) : bool :=
   match c with
   | CSetProp pid _ => (0 <=? pid) && (pid <=? 4)
   | CDurations l => negb (Nat.eqb (List.length l) 0) && forallb (fun e => negb (snd e =? 0)) l
+  | CPoolUpdate _ _ q _ _ => (0 <=? q) && (q <=? PREC)      (* vote quorum is a fraction *)
   | _ => true end.
 
 (* ---- oracles *)
@@ -115,9 +116,14 @@ Definition w_nvoters (w : world) (c : ccontent) : Z :=
     let n := match pool_of w c with Some p => Z.of_nat (List.length (nodup_z (pl_owners p))) | None => 0 end in
     if n =? 0 then 1 else n
   else Z.of_nat (List.length (w_voters w (vote_perm c))).
-(* veto-capable voters: taken from the holders of the vote permission ALSO for PermZero *)
-Definition w_nveto (w : world) (c : ccontent) : Z :=
-  Z.of_nat (List.length (filter (fun ka => a_veto (snd ka)) (w_voters w (vote_perm c)))).
+(* veto-capable voters: taken from the holders of the vote permission ALSO for PermZero, unless the
+   tree rebuilds them from the allowed addresses (Gen/GovHandlers.v, [dynamic_veto_from_allowed]) *)
+Definition w_nveto (dyn_allowed : bool) (w : world) (c : ccontent) : Z :=
+  if dyn_allowed && (vote_perm c =? 0) then
+    (* repaired shape: availableVoters rebuilt from the allowed addresses that are network actors *)
+    Z.of_nat (List.length (filter (fun o => match get_actor o (w_actors w) with Some a => a_veto a | None => false end)
+                                  (match pool_of w c with Some p => nodup_z (pl_owners p) | None => [] end)))
+  else Z.of_nat (List.length (filter (fun ka => a_veto (snd ka)) (w_voters w (vote_perm c)))).
 Definition w_quorum (w : world) (c : ccontent) : Z :=
   if vote_perm c =? 0 then match pool_of w c with Some p => pl_quorum p | None => 0 end else n_quorum (w_np w).
 Definition w_end_secs (w : world) (c : ccontent) : Z :=
@@ -204,11 +210,14 @@ Definition c_ext (e : cext) (w : world) : world :=
 (* ---- the instantiated lifecycle *)
 Definition cstate := state world ccontent.
 Definition cop := op ccontent cext.
-Definition c_params (ret_err : bool) (dec : tally -> vresult) : params world ccontent cext :=
+Record cflags := mkF { f_dur_err : bool;        (* durations handler returns the keeper error *)
+                       f_quorum_panics : bool;  (* IsQuorum error => panic *)
+                       f_dyn_veto : bool }.     (* dynamic-voter proposals: veto-capable voters from the allowed addresses *)
+Definition c_params (f : cflags) (dec : tally -> vresult) : params world ccontent cext :=
   mkParams world ccontent cext valid_basic
        (fun w who c => w_can w who (prop_perm c) c) w_is_active
-       (fun w who c => w_can w who (vote_perm c) c) w_nvoters w_nveto
+       (fun w who c => w_can w who (vote_perm c) c) w_nvoters (w_nveto (f_dyn_veto f))
        w_quorum w_end_secs w_enact_secs
-       (fun w => n_endblocks (w_np w)) (fun w => n_enactblocks (w_np w)) (c_handler ret_err) c_ext dec.
-Definition c_step (ret_err : bool) (dec : tally -> vresult) : ctx -> cop -> cstate -> outcome cstate :=
-  step world ccontent cext (c_params ret_err dec).
+       (fun w => n_endblocks (w_np w)) (fun w => n_enactblocks (w_np w)) (c_handler (f_dur_err f)) c_ext dec (f_quorum_panics f).
+Definition c_step (f : cflags) (dec : tally -> vresult) : ctx -> cop -> cstate -> outcome cstate :=
+  step world ccontent cext (c_params f dec).
